@@ -1,6 +1,7 @@
+\* plans as a relation, no migrations: 324 distinct / 149,078 generated, ~15 s (cost = enumeration of ValidPlans per state)
 SPECIFICATION Spec
 CONSTANTS
-  Hs = {3, 4, 5}
+  Hs = {4, 5}
   Ps = {2}
   Ss = {3}
   Phases = {0}
